@@ -107,6 +107,35 @@ Proof.
     repeat match goal with H : (_ =? 0) = true |- _ => apply Z.eqb_eq in H; subst end; reflexivity.
 Qed.
 
+(* the generic pass accepts what the encoder wrote *)
+Lemma parse_entries_claims (es : list entry) : forall seen,
+  Forall entry_ok es ->
+  (forall e, In e es -> forall k, In k seen -> key_eqb (VInt KUint64 (entry_label e)) k = false) ->
+  NoDup (map entry_label es) ->
+  exists r, parse_entries (parse true) (map entry_kv es) seen = Ok r.
+Proof.
+  induction es as [|e r IH]; intros seen Hok Hseen ND; cbn [map parse_entries]; [now eexists|].
+  inversion Hok as [|? ? He Hr]; subst. inversion ND as [|? ? Hn ND']; subst.
+  assert (Rl : 1 <= entry_label e <= 7) by (destruct e; cbn in He |- *; intuition lia).
+  assert (Ek : entry_kv e = (int_item (entry_label e), snd (entry_kv e))) by (destruct e; reflexivity).
+  rewrite Ek. assert (Pk : parse true (int_item (entry_label e)) = Ok (VInt KUint64 (entry_label e))).
+  { unfold int_item. replace (entry_label e <? 0) with false by lia. cbn [parse]. f_equal. f_equal. lia. }
+  rewrite Pk. cbn [hashable negb].
+  assert (Pv : exists v, parse true (snd (entry_kv e)) = Ok v).
+  { destruct e as [l s|l u|l b]; cbn [entry_kv snd entry_ok] in *.
+    - destruct He as [_ Hs]. cbn [parse]. rewrite Hs. now eexists.
+    - destruct He as [_ Hu]. unfold u64 in Hu. unfold int_item. replace (u <? 0) with false by lia. cbn [parse]. now eexists.
+    - cbn [parse]. now eexists. }
+  destruct Pv as [v Pv]. rewrite Pv.
+  assert (Ex : existsb (key_eqb (VInt KUint64 (entry_label e))) seen = false).
+  { destruct (existsb _ seen) eqn:X; [|reflexivity]. apply existsb_exists in X. destruct X as [k [Hk Hkk]].
+    rewrite (Hseen e (or_introl eq_refl) k Hk) in Hkk. discriminate. }
+  rewrite Ex.
+  destruct (IH (VInt KUint64 (entry_label e) :: seen) Hr) as [rest Hrest]; [|exact ND'|rewrite Hrest; now eexists].
+  intros e' He' k [<-|Hk]; [|apply Hseen; [now right|exact Hk]].
+  cbn [key_eqb ikind_eqb andb]. apply Z.eqb_neq. intro Q. apply Hn. rewrite <- Q. now apply in_map.
+Qed.
+
 Definition label_lt (a b : entry) : Prop := entry_label a < entry_label b.
 
 Lemma StronglySorted_filter' {A} (R : A -> A -> Prop) (p : A -> bool) (l : list A) : StronglySorted R l -> StronglySorted R (filter p l).
@@ -163,10 +192,15 @@ Proof.
     { rewrite map_map. apply map_ext. intros [l s|l u|l b]; unfold canon2, entry_kv, int_item; cbn [fst snd];
         repeat match goal with |- context [if ?x then _ else _] => destruct x end; reflexivity. }
     rewrite E. apply isort_id. apply sorted_entries; [apply entries_increasing|apply entries_in_range]. }
-  rewrite Hc. cbn [through_tags].
+  rewrite Hc.
   pose proof (sorted_NoDup_labels _ (entries_increasing c)) as ND.
-  rewrite (fill_entries (entries_of c) [] zero_claims); [now rewrite apply_entries| |intros e _ k []|exact ND].
-  apply Forall_forall. intros e0 Hin. unfold entries_of in Hin. apply filter_In in Hin. destruct Hin as [Hin _].
-  unfold all_entries in Hin. cbn [In] in Hin.
-  repeat (destruct Hin as [<-|Hin]; [cbn [entry_ok]; try (split; [tauto|assumption]); reflexivity|]). destruct Hin.
+  assert (Hok : Forall entry_ok (entries_of c)).
+  { apply Forall_forall. intros e0 Hin. unfold entries_of in Hin. apply filter_In in Hin. destruct Hin as [Hin _].
+    unfold all_entries in Hin. cbn [In] in Hin.
+    repeat (destruct Hin as [<-|Hin]; [cbn [entry_ok]; try (split; [tauto|assumption]); reflexivity|]). destruct Hin. }
+  destruct (parse_entries_claims (entries_of c) [] Hok) as [pr Hpr]; [intros e _ k []|exact ND|].
+  assert (Hparse : exists g, parse true (IMap (map entry_kv (entries_of c))) = Ok g).
+  { cbn [parse]. rewrite Hpr. unfold wrap_map. destruct (labels_of pr); now eexists. }
+  destruct Hparse as [g Hg]. rewrite Hg. cbn [through_tags].
+  rewrite (fill_entries (entries_of c) [] zero_claims); [now rewrite apply_entries|exact Hok|intros e _ k []|exact ND].
 Qed.
